@@ -163,6 +163,57 @@ def run(ctx):
                     pd[0].bb in (da.reachable_blocks(s, avoid={bb}) | {s}) for s in others)
     ctx.ob("R8.2", "drop_aux:panic-destruct-only-under-EndsWithPanic", ok, "panic_destruct is considered only for PanicState::EndsWithPanic", da.where())
     vs = F.find1(BC, "Analyzer", name="visit_stmt")
+    # ---- R8.4 the analyzer itself: every statement's outputs are introduced and its inputs used, and at a call that
+    # may panic the current demand is merged with the panic branch - under no further condition
+    ctx.analysed(vs)
+    for nm in ("variables_introduced", "variables_used"):
+        cs = calls_named(vs, nm)
+        ctx.ob("R8.4", "visit_stmt:%s-on-every-path" % nm, bool(cs) and vs.must_pass(0, vs.return_blocks(), {c.bb for c in cs}),
+               "every path through visit_stmt passes Demand::%s" % nm, vs.where())
+    md_calls = calls_named(vs, "merge_demands")
+    if len(md_calls) != 1:
+        ctx.ob("R8.4", "visit_stmt:panicable-call-merge", False, "expected one merge_demands call in visit_stmt, found %d" % len(md_calls), vs.where())
+    else:
+        mc = md_calls[0]
+        extra = []
+        seen_ok = set()
+        for bb, t in vs.switches():
+            succs = [s_ for s_ in vs.succ(bb) if not vs.is_unreachable_block(s_)]
+            reach = [mc.bb in (vs.reachable_blocks(s_, avoid={bb}) | {s_}) for s_ in succs]
+            if not any(reach) or all(reach):
+                continue                      # does not decide whether the merge happens
+            info, _ = bool_condition(vs, bb)
+            toks = set()
+            desc = "?"
+            if info and info[0] == "disc":
+                toks = prov(vs, place_local(info[1]), 8)
+                desc = "match on %s" % last_seg(info[2] or "?")
+                if (info[2] or "").endswith("Statement"):
+                    seen_ok.add("statement-kind")
+                    continue
+                if (info[2] or "").endswith("result::Result") and "c:signature" in toks:
+                    seen_ok.add("signature-ok")
+                    continue
+            elif info and info[0] in ("place", "field"):
+                toks = prov(vs, place_local(info[1]), 8) | set("f:" + x for x in place_fields(info[1]))
+                desc = "test of %s" % sorted(x for x in toks if x.startswith("f:"))[:3]
+            elif info and info[0] == "call":
+                toks = set()
+                for a in info[1].args:
+                    toks |= op_prov(vs, a, 8)
+                desc = "test of %s(..)" % info[1].name()
+            else:
+                l_ = op_local(vs.blocks[bb]["t"][1])
+                toks = prov(vs, l_, 8) if l_ is not None else set()
+                desc = "test of %s" % sorted(x for x in toks if x.startswith(("f:", "c:")))[:3]
+            if "f:panicable" in toks and "f:aux" not in toks:
+                seen_ok.add("panicable")
+                continue
+            extra.append("%s (%s)" % (desc, vs.where(t[4] if len(t) > 4 else None)))
+        ctx.ob("R8.4", "visit_stmt:panicable-call-merge", not extra and "panicable" in seen_ok,
+               "the merge with the panic branch happens for every Call whose signature is panicable (decided only by: %s)" % sorted(seen_ok) if not extra else
+               "the merge with the panic branch at a panicable call is skipped under a further condition: %s - the only check that the values alive "
+               "across the call can be dropped on the panic path is then not made" % "; ".join(extra), mc.where())
     rep = {c.bb for c in calls_named(vs, "report_by_location")}
     g("R8.2", "visit_stmt:Desnap:copyable=Err=>report", vs, CallResult("::clone", "Err", arg="f:copyable"), sinks=rep, bypass="none")
     ctx.ob("R8.2", "visit_stmt:kind=DesnappingANonCopyableType", _reports_kind(vs, "DesnappingANonCopyableType"),
